@@ -70,10 +70,10 @@ func classify(op string, a, b *big.Int) (classes []string, window bool) {
 
 func propOps(t *rapid.T) {
 	a, b, kind := gen.Pair(t, P, "p")
-	op := rapid.SampledFrom(opList).Draw(t, "op")
+	op := gen.Sampled(opList).Draw(t, "op")
 	alias := rapid.IntRange(0, 4).Draw(t, "alias")
 	ctrl := gen.Ctrl(t, "ctrl")
-	k := rapid.SampledFrom([]uint{1, 2, 3, 5, 64, 255, 256, 300}).Draw(t, "k")
+	k := gen.Sampled([]uint{1, 2, 3, 5, 64, 255, 256, 300}).Draw(t, "k")
 	if rapid.IntRange(0, 3).Draw(t, "kdrawn") == 0 {
 		k = uint(rapid.IntRange(1, 600).Draw(t, "kval"))
 	}
@@ -251,11 +251,11 @@ func wideBytes(t *rapid.T, n int) []byte {
 		v.FillBytes(b)
 	case 3: // chunk boundaries: the three internal chunks are low 24, mid 24, top 16 bytes of the 64-byte padded value
 		for i := range b {
-			b[i] = rapid.SampledFrom([]byte{0, 0xff, 0x80, 0x01}).Draw(t, "wchunkbyte")
+			b[i] = gen.Sampled([]byte{0, 0xff, 0x80, 0x01}).Draw(t, "wchunkbyte")
 		}
 	case 4: // a 32-byte boundary value in the low bytes, pattern above
 		copy(b[n-32:], gen.Bytes32Any(t, P, "wlow"))
-		fill := rapid.SampledFrom([]byte{0, 0xff, 1}).Draw(t, "wfill")
+		fill := gen.Sampled([]byte{0, 0xff, 1}).Draw(t, "wfill")
 		for i := 0; i < n-32; i++ {
 			b[i] = fill
 		}
@@ -267,7 +267,7 @@ func wideBytes(t *rapid.T, n int) []byte {
 }
 
 func propCodec(t *rapid.T) {
-	which := rapid.SampledFrom([]string{"setbytes", "setcanonical", "mustsetcanonical", "arecanonical",
+	which := gen.Sampled([]string{"setbytes", "setcanonical", "mustsetcanonical", "arecanonical",
 		"newfromcanonical", "wide", "wide-badlen", "bytes", "uint64", "zero-one"}).Draw(t, "which")
 	prev := gen.Int256(t, P, "prev")
 	fe := lib.Fe(prev)
@@ -368,7 +368,7 @@ func propCodec(t *rapid.T) {
 			t.Fatal("input bytes were modified")
 		}
 	case "wide-badlen":
-		n := rapid.SampledFrom([]int{0, 1, 16, 31, 65, 66, 70, 96, 128}).Draw(t, "badlen")
+		n := gen.Sampled([]int{0, 1, 16, 31, 65, 66, 70, 96, 128}).Draw(t, "badlen")
 		src := gen.Bytes(t, n, n, "src")
 		stat.Case("codec", classes, true, append([]byte(which), src...), func() any {
 			return map[string]any{"which": which, "len": n}
